@@ -161,6 +161,60 @@ func fsdurWork(args []string) int {
 		w.Close()
 		marker("op-end ok")
 	}
+	// part 2b: two logs in two directories, used in turn by this one process (a server with more than one raft group):
+	// what one of them fsyncs says nothing about the other's directory — the first commit into a segment file that a
+	// rotation of log A created is acknowledged only after an fsync of A's directory, whatever B did in between
+	{
+		var ws [2]*wal.WAL
+		var next [2]uint64
+		var first [2]uint64
+		for k := 0; k < 2; k++ {
+			wdir := filepath.Join(dir, fmt.Sprintf("walpair%d", k))
+			os.MkdirAll(wdir, 0o755)
+			marker("op-begin open 512")
+			w, err := wal.Open(wdir, wal.WithSegmentSize(512), wal.WithLogger(hclog.NewNullLogger()))
+			marker("op-end ok")
+			if err != nil {
+				fmt.Println("RESULT open-err", err)
+				return 1
+			}
+			ws[k], next[k], first[k] = w, 1, 1
+		}
+		do2 := func(k int, label string, f func() error) {
+			marker("op-begin " + label)
+			err := f()
+			ws[k].DeleteRange(math.MaxUint64, math.MaxUint64)
+			if err != nil {
+				marker("op-end err")
+			} else {
+				marker("op-end ok")
+			}
+		}
+		for round := 0; round < 8; round++ {
+			for k := 0; k < 2; k++ {
+				n := 1 + r.Intn(2)
+				var logs []*raft.Log
+				for j := 0; j < n; j++ {
+					logs = append(logs, &raft.Log{Index: next[k] + uint64(j), Term: 1, Data: r.Bytes(150 + r.Intn(150))})
+				}
+				kk := k
+				do2(k, fmt.Sprintf("store %d %d", next[k], n), func() error { return ws[kk].StoreLogs(logs) })
+				next[k] += uint64(n)
+			}
+			if round%3 == 2 {
+				// a head truncation in B deletes segment files there: unlink + fsync of B's directory
+				k := 1
+				upto := first[k] + (next[k]-first[k])/2
+				do2(k, fmt.Sprintf("del %d %d", first[k], upto), func() error { return ws[k].DeleteRange(first[k], upto) })
+				first[k] = upto + 1
+			}
+		}
+		for k := 0; k < 2; k++ {
+			marker("op-begin close")
+			ws[k].Close()
+			marker("op-end ok")
+		}
+	}
 	// part 3: a process that dies (here: whose every fsync fails, then abandons the WAL) after the first batch was
 	// written into a newly created segment file but before any fsync of it succeeded — the file's directory entry
 	// has never been made durable. The next "process" (stock storage layer) recovers the CRC-valid batch from the
